@@ -378,22 +378,19 @@ func max(a, b int) int {
 }
 
 func genAll() error {
-	for _, p := range []string{"C18", "C15"} {
-		if err := genFor(p); err != nil {
-			return err
-		}
+	if err := genC18(); err != nil {
+		return err
 	}
-	return nil
+	if err := genC15(); err != nil {
+		return err
+	}
+	return genC03()
 }
 
 // genFor regenerates the L2 harness sources a property needs from /repo's
 // current type information.
 func genFor(prop string) error {
-	switch prop {
-	case "C18":
-		return genC18()
-	case "C15":
-		return genC15()
-	}
-	return nil
+	// every harness directory is part of every run's overlay, so all generated
+	// sources are brought up to date with /repo whatever the property
+	return genAll()
 }
